@@ -50,7 +50,8 @@ ASSUMPTIONS = [
 ]
 
 ACTIONS = (
-    "NewAligned", "NewAlignedDefault", "NewExact", "NewExactRejected", "NewExactDefault", "ResolveRelative",
+    "NewAligned", "NewAlignedDefault", "NewExact", "NewExactRejected", "NewExactDefault", "NewAbstract",
+    "ToExactCustom", "ResolveRelative",
     "ResolveAbsolute", "ResolveAbsoluteCopy", "ToExactAligned", "ToExactExact", "ToExactExactCopy", "GetPaddedSize",
     "ExactDims", "PadOutput",
     "RelativeRefused", "ChainRenderSize", "Dimensions", "MinSize", "RebuildSame", "RebuildInt", "RebuildStr",
@@ -87,12 +88,14 @@ def design_violation(rep: Report, res, cfg: str) -> None:
 # ------------------------------------------------------------------ labels (naming only)
 def label(op: dict, operand_cls: str) -> str:
     nm = op["name"]
-    base = {"SubAligned": "AlignedPadding", "SubExact": "ExactPadding", "SubSize": "Size",
-            "SubColor": "Color"}.get(operand_cls, operand_cls)
+    base = {"SubAligned": "AlignedPadding", "SubExact": "ExactPadding", "SubSize": "Size", "SubColor": "Color",
+            "CustomPadding": "Padding"}.get(operand_cls, operand_cls)
     if nm in ("new_aligned", "new_aligned_default"):
         return "AlignedPadding()"
     if nm in ("new_exact", "new_exact_default"):
-        return "ExactPadding()"
+        return "ExactPadding()" if op["cls"] != "CustomPadding" else "CustomPadding()"
+    if nm == "new_abstract":
+        return "Padding()"
     if nm == "new_size":
         return ("RawSize" if op["cls"] == "RawSize" else "Size") + "()"
     if nm in ("new_color", "new_color_rgb"):
@@ -227,8 +230,10 @@ def gen_op(world: W.World, rng: random.Random, fam: str, cap: int) -> dict:
             return n + 1
         return rng.randint(1, n)
 
-    def pick(*ks):
-        c = [i + 1 for i, k in enumerate(kinds) if k in ks]
+    custom = [isinstance(o, W.CustomPadding) for o in st]
+
+    def pick(*ks, own=False):
+        c = [i + 1 for i, k in enumerate(kinds) if k in ks and not (own and custom[i])]
         return rng.choice(c) if c else 0
 
     def dim(lo, hi):
@@ -237,7 +242,8 @@ def gen_op(world: W.World, rng: random.Random, fam: str, cap: int) -> dict:
     for _ in range(50):
         r = rng.random()
         if fam == "pad":
-            i_al, i_ex, i_pad, i_sz = pick("aligned"), pick("exact"), pick("aligned", "exact"), pick("size")
+            i_al, i_ex, i_pad, i_sz = pick("aligned"), pick("exact", own=True), pick("aligned", "exact"), pick("size")
+            i_own = pick("aligned", "exact", own=True)
             if n == 0 or r < 0.22:
                 c = rng.random()
                 if c < 0.35:
@@ -250,15 +256,23 @@ def gen_op(world: W.World, rng: random.Random, fam: str, cap: int) -> dict:
                     d = [rng.randint(0, 9) for _ in range(4)]
                     if rng.random() < 0.25:
                         d[rng.randrange(4)] = -rng.randint(1, 3)
-                    return _op("new_exact", dst=dst(), cls=rng.choice(["ExactPadding"] * 3 + ["SubExact"]), n=d,
-                               s=[rng.choice(FILLS)])
-                if c < 0.72:
+                    cls = rng.choice(["ExactPadding"] * 3 + ["SubExact"] + (["CustomPadding"] if min(d) >= 0 else []))
+                    return _op("new_exact", dst=dst(), cls=cls, n=d, s=[rng.choice(FILLS)])
+                if c < 0.71:
                     return _op("new_exact_default", dst=dst(), cls=rng.choice(["ExactPadding", "SubExact"]))
+                if c < 0.73:
+                    return _op("new_abstract", dst=n + 1, cls="Padding", s=rng.choice([[], [" "], ["#"]]))
                 if c < 0.9:
                     return _op("new_size", dst=dst(), cls=rng.choice(["Size", "Size", "SubSize", "RawSize"]),
                                n=[rng.randint(-2, 40), rng.randint(-2, 20)])
                 return _op("bypass", dst=dst(), cls=rng.choice(["Size", "SubSize", "RawSize"]),
                            n=[rng.randint(-2, 9), rng.randint(-2, 9)])
+            if r < 0.26 and i_sz and n < cap:
+                # a twin: the fields of a live size under another class (tuple equality across classes)
+                o = st[i_sz - 1]
+                cls = rng.choice([c for c in ("Size", "SubSize", "RawSize") if c != type(o).__name__])
+                ok = cls == "RawSize" or (o[0] >= 1 and o[1] >= 1)
+                return _op("new_size" if ok and rng.random() < 0.7 else "bypass", dst=n + 1, cls=cls, n=[o[0], o[1]])
             if r < 0.32 and i_al:
                 return _op("resolve", i=i_al, dst=dst(), n=[rng.randint(1, 120), rng.randint(1, 50)])
             if r < 0.62 and i_pad:
@@ -271,7 +285,8 @@ def gen_op(world: W.World, rng: random.Random, fam: str, cap: int) -> dict:
                 return _op("dimensions", i=i_ex)
             if r < 0.70 and i_al:
                 return _op("min_size", i=i_al, dst=dst())
-            if r < 0.84 and i_pad:
+            if r < 0.84 and i_own:
+                i_pad = i_own
                 k = kinds[i_pad - 1]
                 f = rng.choice(("none",) + W.INT_FIELDS[k] + W.STR_FIELDS[k])
                 if f in W.INT_FIELDS[k]:
@@ -300,6 +315,12 @@ def gen_op(world: W.World, rng: random.Random, fam: str, cap: int) -> dict:
                                n=[rng.randint(-3, 300) for _ in range(4)])
                 return _op("new_str", dst=dst(), cls="str", n=W.encode(_rand_hex_text(rng)))
             valid = i_c and all(isinstance(x, int) and 0 <= x <= 255 for x in st[i_c - 1])
+            if r < 0.30 and valid and n < cap:   # a twin under the other class / through the other constructor
+                o = st[i_c - 1]
+                cls = "SubColor" if type(o).__name__ == "Color" else "Color"
+                if o[3] == 255 and rng.random() < 0.4:
+                    return _op("new_color_rgb", dst=n + 1, cls=cls, n=list(o[:3]))
+                return _op("new_color", dst=n + 1, cls=cls, n=list(o))
             if r < 0.45 and valid:
                 nm = rng.choice(["hex", "hex", "rgb_hex", "rgb"])
                 return _op(nm, i=i_c, dst=dst() if nm != "rgb" else 0)
@@ -310,7 +331,7 @@ def gen_op(world: W.World, rng: random.Random, fam: str, cap: int) -> dict:
                 return _op("replace", i=i_c, dst=dst(), n=[rng.choice([rng.randint(0, 255), 256, -1, 300])],
                            s=[rng.choice("rgba")])
         # immutability probes on anything but strings
-        c = [i + 1 for i, k in enumerate(kinds) if k != "str"]
+        c = [i + 1 for i, k in enumerate(kinds) if k != "str" and not custom[i]]
         if c:
             i = rng.choice(c)
             k = kinds[i - 1]
@@ -393,7 +414,12 @@ def report(rep: Report, traces: list[dict], validated, origin: str, expect_fail:
             detail = f"[{origin}] " + _describe(t, v)
             if t.get("diff"):
                 detail += f"\n  replay difference: {t['diff']}"
-            rep.violation(f"{e['lab']}:{v['verdict']}", detail, _scenario(t))
+            lab = e["lab"]
+            if v.get("who"):  # an equality / hashing clause: name the class, not the operation at hand
+                base = {"SubAligned": "AlignedPadding", "SubExact": "ExactPadding", "SubSize": "Size",
+                        "SubColor": "Color"}.get(v["who"], v["who"])
+                lab = base + (".__hash__" if "hash" in v["verdict"] else ".__eq__")
+            rep.violation(f"{lab}:{v['verdict']}", detail, _scenario(t))
     return verdicts
 
 
@@ -441,12 +467,13 @@ def main(rep: Report, replay: dict | None) -> None:
         timing[name] = round(time.time() - t0, 1)
         t0 = time.time()
 
-    mc_cfg = "MC_ValueTypes_quick.cfg" if quick else "MC_ValueTypes_thorough.cfg"
+    mc_cfgs = ["MC_ValueTypes_quick.cfg", "MC_ValueTypes_pairs.cfg"] if quick else \
+        ["MC_ValueTypes_thorough.cfg", "MC_ValueTypes_pairs.cfg", "MC_ValueTypes_deep.cfg"]
     dumps = [("Edges_ValueTypes_quick.cfg", True), ("Edges_ValueTypes_chain.cfg", False)] if quick else \
         [("Edges_ValueTypes_thorough.cfg", True), ("Edges_ValueTypes_chain4.cfg", False)]
-    with ThreadPoolExecutor(max_workers=4) as ex:
-        f_mc = ex.submit(tlc.run, "MC_ValueTypes", mc_cfg, workers=4, timeout=300 if quick else 1500,
-                         coverage=True, seed=rep.seed)
+    with ThreadPoolExecutor(max_workers=6) as ex:
+        f_mc = [ex.submit(tlc.run, "MC_ValueTypes", cfg, workers=4 if k == 0 else 2, timeout=300 if quick else 1500,
+                          coverage=True) for k, cfg in enumerate(mc_cfgs)]
         f_dump = [ex.submit(tlc.run, "MC_ValueTypes", cfg, workers=1, timeout=300 if quick else 1500, coverage=True,
                             jvm=["-Xmx6g" if quick else "-Xmx10g", "-Xss64m"]) for cfg, _ in dumps]
 
@@ -462,7 +489,7 @@ def main(rep: Report, replay: dict | None) -> None:
         # canary: a corrupted copy of a recorded history (one observed field altered in its first
         # event) rides along; the Trace spec must reject it at that event
         src = next(t for t in recorded if t["ev"][0]["res"] == "ok" and t["ev"][0]["obs"]["o"]
-                   and t["ev"][0]["obs"]["o"][0]["k"] != "str")
+                   and t["ev"][0]["obs"]["o"][0]["k"] != "str" and t["ev"][0]["obs"]["o"][0]["cls"] != "CustomPadding")
         canary = json.loads(json.dumps({"init": [], "ev": src["ev"][:1], "seed": 0}))
         canary["ev"][0]["obs"]["o"][0]["n"][0] += 1
         if canary["ev"][0]["obs"]["o"][0]["tup"]:
@@ -526,7 +553,7 @@ def main(rep: Report, replay: dict | None) -> None:
             gc.unfreeze()
             lap(f"replay:{cfg}")
 
-        res_mc = f_mc.result()
+        res_mcs = [f.result() for f in f_mc]
         lap("wait_model_check")
         hv, hst, htr = f_hist.result()
         lap("wait_validate_histories")
@@ -537,12 +564,15 @@ def main(rep: Report, replay: dict | None) -> None:
                                "tampered_edges": "noticed"}
 
     # ---- the model itself
-    rep.add_tlc(res_mc)
-    design_violation(rep, res_mc, mc_cfg)
-    if not res_mc.violated:
-        mc_cov = require_actions(res_mc, mc_cfg)
-        rep.extra["model"] = {"cfg": mc_cfg, "states": res_mc.distinct, "transitions": res_mc.generated,
-                              "depth": res_mc.depth, "actions_generated": mc_cov, "wall_s": round(res_mc.wall_s, 1)}
+    rep.extra["model"] = []
+    for mc_cfg, res_mc in zip(mc_cfgs, res_mcs):
+        rep.add_tlc(res_mc)
+        design_violation(rep, res_mc, mc_cfg)
+        if not res_mc.violated:
+            mc_cov = require_actions(res_mc, mc_cfg)
+            rep.extra["model"].append({"cfg": mc_cfg, "states": res_mc.distinct, "transitions": res_mc.generated,
+                                       "depth": res_mc.depth, "actions_generated": mc_cov,
+                                       "wall_s": round(res_mc.wall_s, 1)})
     rep.exhaustive = True
     rep.extra["exhaustive_space"] = (
         "per family (paddings+sizes / colours+strings): every store reachable by one literal construction from the "
